@@ -310,7 +310,7 @@ def _parse_indexed_arrays(expr: str) -> tuple[ArraySpec, ...]:
     array_pattern = r"(\w+(?:\.\w+)?\w*)\[(.+?)\]"
     return tuple(
         ArraySpec(name, _parse_index_string(indices))
-        for name, indices in re.findall(array_pattern, expr)
+        for name, indices in re.findall(array_pattern, expr, flags=re.DOTALL)
     )
 
 
